@@ -246,7 +246,11 @@ def handleC11 (fields : List String) : Verdict :=
           let unlisted := vO.filter (fun v => !listed.contains v.1)
           let maxListed := ord.foldl (fun m (_, i) => max m (i + 1)) 0
           let unlistedOk := unlisted.all (fun v => v.2 ≥ maxListed)
-          if !ordering.startsWith "T:" then none   -- API form: ids are given, nothing to check here
+          if !ordering.startsWith "T:" then
+            -- API form: a listed name carries exactly the listed id (`C11.listed_keep_ids`), an unlisted one a larger id
+            match ord.find? (fun (n, i) => vO.any (fun v => v.1 == hexOf n && v.2 != i)) with
+            | some (n, i) => some s!"the listed variable {n} does not carry its listed id {i}: {vO}"
+            | none => if !unlistedOk then some "a variable that is not listed got an id that is not above every listed id" else none
           else if !sortedOk then some s!"variables listed in the ordering file are not ordered as in the file: {used} got ids {idsListed}"
           else if !unlistedOk then some "a variable not listed in the ordering file is ordered before a listed one"
           else none
